@@ -297,7 +297,7 @@ def check_main(pid, tier, only=None, njobs=None, keep=False):
         vio_keys = set()
         for cand, rr in violations:
             k = rr.get('key', '') or json.dumps(cand.get('inputs', {}), sort_keys=True)
-            if k in vio_keys:
+            if k in vio_keys or len(lines) >= 5:
                 continue
             vio_keys.add(k)
             h = hashlib.sha1(k.encode()).hexdigest()[:10]
